@@ -6,11 +6,11 @@ from lib.common import Broken, Violation, verdict, save_replay
 PROPS = {
     "C36": {
         "text": "SqlPrune.tla transcribes the single-topic SELECT path of the SQL server (filterSegments with segmentMatchesOffsets / segmentMatchesTimestamps on the listed statistics, scan in listing order, per-record offset/time filters, LIMIT early exit, TAIL, ORDER BY _ts [DESC]) and the way discovery derives statistics (MinOffset = base, MaxOffset = next base - 1, time index min/max). TLC enumerates a bounded domain of segment layouts (1-3 segments per partition, two partitions, gaps, non-monotone timestamps, five statistics-availability modes) x queries (partition, offset range, time range / LAST, limit / tail / ordering) and proves for every pair that the pruned evaluation equals direct filtering of all records and that no answer row lives in a skipped segment. TLC-sampled (seeded) inputs of the same domain plus counterexamples of named wrong pruning rules are run through the REAL server query path (handleQuery / handleSelect with in-package fake lister and decoder); TLC evaluates the property predicate on the rows actually returned (layer O) and compares rows and decoded segments with the model (layer C).",
-        "note": "Function-level. Trusted: TLC, the fake Lister/Decoder, the rendering of abstract queries to SQL text (each text is re-parsed with the server's parser and compared with the abstract query), abstract times mapped to wall-clock hours before the test start (LAST windows end half an hour before an abstract instant; the run aborts after 20 min). Explicit _ts bounds are set on the parsed query because the grammar rejects _ts inside WHERE. ORDER BY with equal timestamps is judged up to permutation of ties. Out of scope: joins, aggregates, LIMIT 0 (treated by the server as 'default limit'), the result cache (off), statistics read from S3 (the lister is a fake that supplies the statistics the model derives).",
+        "note": "Function-level. Trusted: TLC, the fake Lister/Decoder, the rendering of abstract queries to SQL text (each text is re-parsed with the server's parser and compared with the abstract query), abstract times mapped to wall-clock hours before the test start (LAST windows end half an hour before an abstract instant; the run aborts after 20 min). Explicit _ts bounds are set on the parsed query because the grammar rejects _ts inside WHERE. ORDER BY with equal timestamps is judged up to permutation of ties. Out of scope: joins, aggregates, LIMIT 0 (treated by the server as 'default limit'), the result cache (off), the time index / manifest readers (for layouts in mode 'base' the statistics come from the REAL s3Lister run over an in-memory S3 listing; in the other four modes the model's derivation is used).",
         "technique": "TLA+ model (SqlPrune.tla) + TLC exhaustive check over the bounded input domain + TLC-sampled inputs run through the real query path + TLC evaluation of the property on the real rows (observation layer) and comparison with the model (conformance layer)",
     }
 }
-DEVIATIONS = {"PruneOnBase": "C36_ResultEqualsDirect", "TimeMinOnly": "C36_ResultEqualsDirect", "LimitPerSegment": "C36_ResultEqualsDirect"}
+DEVIATIONS = {n: "C36_ResultEqualsDirect" for n in ("PruneOnBase", "TimeMinOnly", "LimitPerSegment", "MaxOffsetAcrossPartitions")}
 PKG = "addons/processors/sql-processor"
 
 
@@ -23,6 +23,37 @@ def harness(ctx, inputs, tag):
     if rc != 0 or "replayed %d schedules" % len(inputs) not in out:
         raise Broken("sqlprune harness failed:\n" + out[-3000:])
     return gorun.read_ndjson(tp)
+
+
+def real_lister_stats(ctx, inputs):
+    """Layouts in statistics mode "base" (= what s3Lister derives without a time index): run the REAL discovery lister over an
+    in-memory S3 listing of the same segments and use the statistics IT attached instead of the model's."""
+    lays = {}
+    for s in inputs:
+        if s["segs"] and s["segs"][0].get("sm") == "base":
+            lid = json.dumps([[g["p"], g["base"], g["key"]] for g in s["segs"]])
+            lays.setdefault(lid, {"id": lid, "segs": [{"p": g["p"], "base": g["base"], "key": g["key"]} for g in s["segs"]]})
+    if not lays:
+        return 0, 0
+    sp = os.path.join(ctx.scratch, "layouts.ndjson")
+    tp = os.path.join(ctx.scratch, "stats.ndjson")
+    gorun.write_ndjson(sp, list(lays.values()))
+    rc, out = gorun.go_test(ctx, PKG, "./internal/discovery/", {PKG + "/internal/discovery/zz_verif_discovery_test.go": os.path.join(DIR, "harness", "discovery_verif_test.go")},
+                            "^TestVerifDiscoveryStats$", env={"VERIF_SCHEDULES": sp, "VERIF_TRACE_OUT": tp}, timeout=1500)
+    if rc != 0 or "replayed %d schedules" % len(lays) not in out:
+        raise Broken("discovery harness failed:\n" + out[-3000:])
+    stats = {r["id"]: {g["key"]: g for g in r["stats"]} for r in gorun.read_ndjson(tp)}
+    n = 0
+    for s in inputs:
+        if s["segs"] and s["segs"][0].get("sm") == "base":
+            lid = json.dumps([[g["p"], g["base"], g["key"]] for g in s["segs"]])
+            for g in s["segs"]:
+                st = stats[lid][g["key"]]
+                if st["p"] != g["p"] or st["base"] != g["base"]:
+                    raise Broken("real lister returned segment %r for %r" % (st, g))
+                g["minO"], g["maxO"], g["minT"], g["maxT"] = st["minO"], st["maxO"], st["minT"], st["maxT"]
+            n += 1
+    return len(lays), n
 
 
 def qclass(q):
@@ -67,6 +98,10 @@ def check(ctx, prop):
     if len(inputs) < ndev + 100:
         raise Broken("simulation produced only %d inputs" % (len(inputs) - ndev))
     ctx.log("%d inputs (%d deviation counterexamples, %d sampled by TLC)" % (len(inputs), ndev, len(inputs) - ndev))
+    nlay_real, n_real = real_lister_stats(ctx, inputs)
+    ctx.log("%d inputs carry statistics produced by the real discovery lister (%d distinct listings)" % (n_real, nlay_real))
+    if n_real == 0:
+        raise Broken("no input went through the real discovery lister")
     rows = harness(ctx, inputs, "main")
     if len(rows) != len(inputs):
         raise Broken("harness recorded %d evaluations for %d inputs" % (len(rows), len(inputs)))
@@ -95,8 +130,8 @@ def check(ctx, prop):
         "states": mc.distinct, "transitions": mc.generated, "depth": mc.depth, "exhaustive": True, "model_config": "MC_SqlPrune_%s.cfg" % ctx.tier,
         "traces_validated_against_impl": len(rows), "trace_events": len(rows),
         "evaluations": len(rows), "distinct_nontrivial": nontrivial, "evaluations_with_a_segment_skipped": pruned,
-        "query_classes": len({qclass(e["q"]) for e in rows}),
-        "rule": "inputs = TLC counterexamples of the named wrong pruning rules + a seeded sample of the (layout, query) pairs printed by TLC -simulate (seeded random layouts of the thorough domain of 225 layouts, each with all 1215 queries); non-trivial = has an offset or time filter and returns at least one row; 'segment skipped' = fewer segments decoded than the partition filter alone would leave",
+        "query_classes": len({qclass(e["q"]) for e in rows}), "inputs_with_statistics_from_real_lister": n_real, "listings_through_real_lister": nlay_real,
+        "rule": "inputs = TLC counterexamples of the named wrong pruning rules + a seeded sample of the (layout, query) pairs printed by TLC -simulate (seeded random layouts of the thorough domain of 300 layouts, each with all 1215 queries); non-trivial = has an offset or time filter and returns at least one row; 'segment skipped' = fewer segments decoded than the partition filter alone would leave",
         "deviation_schedules": sorted(DEVIATIONS), "conformance": ("drift" if drift else "accepted"), "conformance_detail": conf,
         "binding_self_test": st, "samples": [{"q": rows[0]["q"], "sql": rows[0]["sql"], "rows": rows[0]["rows"], "scanned": rows[0]["scanned"]}, {"q": rows[ndev]["q"], "sql": rows[ndev]["sql"], "rows": rows[ndev]["rows"], "scanned": rows[ndev]["scanned"], "segs": rows[ndev]["segs"]}],
     }
@@ -105,7 +140,7 @@ def check(ctx, prop):
     if not quick:
         cov["action_coverage"] = {k: v[1] for k, v in mc.action_coverage().items()}
     return verdict(ctx, violations, level, cov, [
-        "segment statistics handed to the server are the ones the model derives (MinOffset = base, MaxOffset = next base - 1, time index min/max), in five availability modes; the lister and decoder are fakes",
+        "segment statistics: for layouts in mode base they are produced by the real discovery s3Lister.ListCompleted over an in-memory S3 endpoint (listing + footer check) and handed to the server through a fake Lister; in the other modes they are the ones the model derives; the decoder is a fake",
         "abstract instants 1..6 are mapped to whole hours before the start of the test; LAST windows end between two instants",
         "explicit time bounds are set on the parsed query (the grammar rejects _ts comparisons inside WHERE); all other filters go through the SQL text and the server's parser",
     ])
